@@ -381,6 +381,9 @@ def exp(p):
     p = P(p)
     if p.is_zero():
         return ONE
+    at = p.single_atom()
+    if at is not None and isinstance(at, App) and at.op == "log":
+        return at.args[0]
     return P(Exp(p))
 
 
